@@ -1,6 +1,7 @@
 // C16 probe: real impl::Elementary_substitution / impl::General_substitution over real Parameter and Expr nodes.
 // Same op lines as lean/IprDriver/C16.lean; results are named by node identity (address -> token).
 #include <ipr/impl>
+#include <functional>
 #include <iostream>
 #include <map>
 #include <memory>
@@ -48,13 +49,31 @@ int main()
             // Parameters spread over several parameter lists; lists 0 and 2 (1 and 3, …) have the same nesting level, and
             // parameters at the same position of different lists have the same name and type: they are structurally
             // indistinguishable but distinct nodes — a substitution must tell them apart by identity.
+            // The lists are of every kind a client can make (mapping at two nesting levels, twice; lambda; requires-expression;
+            // function declarator), so the parameters differ in what their home region says (owner, level, enclosing region), and
+            // some of them carry a default argument: none of that is the binding a substitution was given.
             int n = std::stoi(a);
-            impl::Mapping* m = nullptr;
+            std::function<impl::Parameter*(const ipr::Name&, const ipr::Type&)> add;
             for (int i = 0; i < n; ++i) {
-               if (i % 3 == 0) m = lx.make_mapping(region, Mapping_level{static_cast<std::size_t>((i / 3) % 2)});
+               if (i % 3 == 0) {
+                  const int list = i / 3;
+                  const auto level = Mapping_level{static_cast<std::size_t>(list % 2)};
+                  switch (list < 4 ? 0 : 1 + (list - 4) % 3) {
+                  case 0: { auto* m = lx.make_mapping(region, level); add = [m](auto& nm, auto& ty) { return m->param(nm, ty); }; break; }
+                  case 1: { auto* m = lx.make_lambda(region, level); add = [m](auto& nm, auto& ty) { return m->inputs.add_member(nm, ty); }; break; }
+                  case 2: { auto* m = lx.make_requires(region, level); add = [m](auto& nm, auto& ty) { return m->formals.add_member(nm, ty); }; break; }
+                  default: { auto* m = region.make_function_morphism(region, level); add = [m](auto& nm, auto& ty) { return m->inputs.add_member(nm, ty); }; break; }
+                  }
+               }
                auto name = "p" + std::to_string(i);
                auto spelling = "x" + std::to_string(i % 3);
-               auto* p = m->param(lx.get_identifier(util::word_view(reinterpret_cast<const char8_t*>(spelling.data()), spelling.size())), lx.int_type());
+               auto* p = add(lx.get_identifier(util::word_view(reinterpret_cast<const char8_t*>(spelling.data()), spelling.size())), lx.int_type());
+               if (i % 4 == 1) {
+                  auto d = "default" + std::to_string(i);
+                  p->init = &lx.get_literal(lx.int_type(), util::word_view(reinterpret_cast<const char8_t*>(d.data()), d.size()));
+               }
+               else if (i % 8 == 3 and i > 0)
+                  p->init = params[i - 1];          // a default argument that names the previous parameter
                token[p] = name;
                params.push_back(p);
             }
